@@ -34,6 +34,7 @@ func runC13Gaps2(c *eng.Ctx) {
 	c13gSeekNotCleaned(c)
 	c13gFileKeyEncoding(c)
 	c13gCursorStep(c)
+	c13gScanLoop(c)
 }
 
 // ---- file backend: sort, then skip the element equal to 'after', then cut to a positive limit
@@ -1158,4 +1159,208 @@ func c13gCursorStep(c *eng.Ctx) {
 	}
 	c.Clause("R3", "C13.3")
 	c.Floor(nil, "raft listings with a cursor loop", n, 2)
+}
+
+// ---- scanViewPaginated: the paging loop of one directory ends (other than by
+// an error / a callback's stop) only when the page was empty, shorter than the
+// page size, or in the single-empty-entry case — exactly one entry AND that
+// entry is "" AND the page size is above one; and inside a page every entry is
+// either reported or queued (seed C13-g). Operands are selected by identity:
+// the ListPage result, its length, the pageSize parameter.
+func c13gScanLoop(c *eng.Ctx) {
+	f := c.Fn("logical.scanViewPaginated")
+	if f == nil {
+		return
+	}
+	c.Clause("R2", "C13.4")
+	lps, _ := c13gMethodCalls(f, "ListPage")
+	if !c.Floor(f, "ListPage in the scan", len(lps), 1) {
+		return
+	}
+	var pSize *ssa.Parameter
+	for _, p := range f.Params {
+		if eng.VarName(p) == "pageSize" {
+			pSize = p
+		}
+	}
+	if pSize == nil {
+		c.Unresolved("logical.scanViewPaginated(pageSize)")
+		return
+	}
+	isListing := func(v ssa.Value) bool {
+		ex, ok := v.(*ssa.Extract)
+		if !ok || ex.Index != 0 {
+			return false
+		}
+		for _, l := range lps {
+			if lv, isV := l.(ssa.Value); isV && ex.Tuple == lv {
+				return true
+			}
+		}
+		return false
+	}
+	isLen := func(v ssa.Value) bool {
+		cl, ok := v.(*ssa.Call)
+		return ok && eng.CalleeName(&cl.Call) == "len" && len(cl.Call.Args) == 1 && isListing(cl.Call.Args[0])
+	}
+	isConst := func(v ssa.Value, s string) bool {
+		_, ok := v.(*ssa.Const)
+		return ok && eng.Expr(v) == s
+	}
+	// the single entry of a one-element page: element 0, the last element, or the 'after' cursor taken from it
+	isEntry := func(v ssa.Value) bool {
+		var elem func(v ssa.Value, d int) bool
+		elem = func(v ssa.Value, d int) bool {
+			if idx, ok := c13gListedElem(v, lps); ok {
+				return eng.Expr(idx) == "0" || c13gIsLastIndex(idx, lps)
+			}
+			if phi, ok := v.(*ssa.Phi); ok && d < 3 {
+				any := false
+				for _, e := range phi.Edges {
+					if isConst(e, `""`) {
+						continue
+					}
+					if !elem(e, d+1) {
+						return false
+					}
+					any = true
+				}
+				return any
+			}
+			return false
+		}
+		return elem(v, 0)
+	}
+	// edges on which a relation between two classified operands holds
+	var empty, short, one, blank, multi []eng.Edge
+	var rangeBody []eng.Edge
+	var rangeIfs []ssa.Instruction
+	for _, b := range f.Blocks {
+		iff := eng.IfOf(b)
+		if iff == nil {
+			continue
+		}
+		bo, ok := iff.Cond.(*ssa.BinOp)
+		if !ok {
+			continue
+		}
+		T, F := eng.Edge{From: b, Succ: 0}, eng.Edge{From: b, Succ: 1}
+		x, y := bo.X, bo.Y
+		eqEdge := func() (eng.Edge, bool) {
+			switch bo.Op {
+			case token.EQL:
+				return T, true
+			case token.NEQ:
+				return F, true
+			}
+			return T, false
+		}
+		// x < y holds on ...
+		lessEdge := func(a, b2 func(ssa.Value) bool) (eng.Edge, bool) {
+			switch {
+			case bo.Op == token.LSS && a(x) && b2(y), bo.Op == token.GTR && a(y) && b2(x):
+				return T, true
+			case bo.Op == token.GEQ && a(x) && b2(y), bo.Op == token.LEQ && a(y) && b2(x):
+				return F, true
+			}
+			return T, false
+		}
+		isSize := func(v ssa.Value) bool { return v == ssa.Value(pSize) }
+		is0 := func(v ssa.Value) bool { return isConst(v, "0") }
+		is1 := func(v ssa.Value) bool { return isConst(v, "1") }
+		is2 := func(v ssa.Value) bool { return isConst(v, "2") }
+		if e, ok := eqEdge(); ok {
+			switch {
+			case (isLen(x) && is0(y)) || (isLen(y) && is0(x)):
+				empty = append(empty, e)
+			case (isLen(x) && is1(y)) || (isLen(y) && is1(x)):
+				one = append(one, e)
+			case (isEntry(x) && isConst(y, `""`)) || (isEntry(y) && isConst(x, `""`)):
+				blank = append(blank, e)
+			}
+			continue
+		}
+		if e, ok := lessEdge(isLen, isSize); ok {
+			short = append(short, e)
+		}
+		if e, ok := lessEdge(isLen, is1); ok { // len < 1
+			empty = append(empty, e)
+		}
+		if e, ok := lessEdge(is1, isSize); ok { // 1 < pageSize
+			multi = append(multi, e)
+		}
+		if e, ok := lessEdge(isSize, is2); ok { // pageSize < 2 is the negation
+			multi = append(multi, eng.Edge{From: b, Succ: 1 - e.Succ})
+		}
+		// the loop over the entries of a page: idx < len(listing)
+		if bo.Op == token.LSS && isLen(y) && !is0(x) && !is1(x) && !isSize(x) {
+			rangeBody = append(rangeBody, T)
+			rangeIfs = append(rangeIfs, iff)
+		}
+	}
+	// where paging of the current directory stops normally: the outer loop's test, or the final return nil
+	var stops []ssa.Instruction
+	for _, b := range f.Blocks {
+		if iff := eng.IfOf(b); iff != nil {
+			if bo, ok := iff.Cond.(*ssa.BinOp); ok {
+				for _, side := range []ssa.Value{bo.X, bo.Y} {
+					if cl, isC := side.(*ssa.Call); isC && eng.CalleeName(&cl.Call) == "len" && len(cl.Call.Args) == 1 && !isListing(cl.Call.Args[0]) && strings.HasPrefix(eng.Expr(cl.Call.Args[0]), "φfrontier") {
+						stops = append(stops, iff)
+					}
+				}
+			}
+		}
+	}
+	for _, r := range eng.Returns(f) {
+		if len(r.Results) == 1 && eng.IsNilConst(r.Results[0]) {
+			stops = append(stops, r)
+		}
+	}
+	if !c.Floor(f, "normal ends of a directory's paging (outer loop test / return nil)", len(stops), 2) {
+		return
+	}
+	var start []eng.Edge
+	for _, l := range lps {
+		start = append(start, eng.CallOKEdges(l)...)
+	}
+	if len(start) == 0 {
+		c.Undecided(f, "end of a directory's paging", lps[0].Pos(), "the error of ListPage is not tested (moved?): the rule cannot be evaluated")
+		return
+	}
+	base := append(append([]eng.Edge{}, empty...), short...)
+	site := "end of a directory's paging: page empty, page short, or (one entry AND entry == \"\" AND pageSize > 1)"
+	var missing []string
+	var wit []string
+	for _, cj := range []struct {
+		what  string
+		edges []eng.Edge
+	}{{"exactly one entry was listed (len(page) == 1)", one}, {"that entry is the empty string", blank}, {"the page size is above one", multi}} {
+		blocked := append(append([]eng.Edge{}, base...), cj.edges...)
+		if h := eng.Reach(eng.Query{Fn: f, StartEdges: start, Blocked: blocked, Barriers: eng.AsInstrs(lps), Target: eng.IsTarget(stops)}); h != nil {
+			missing = append(missing, cj.what)
+			wit = h.Witness
+		}
+	}
+	if len(missing) == 0 {
+		c.OK(f, site, lps[0].Pos(), fmt.Sprintf("every path from a successful ListPage to the end of the directory's paging crosses len(page)==0 (%d edge(s)), len(page)<pageSize (%d) or all three conjuncts of the single-empty-entry case", len(empty), len(short)))
+	} else {
+		c.Violation(f, site, lps[0].Pos(), "the scan can stop paging a directory after a page that was neither empty nor short without having established that "+strings.Join(missing, " / ")+": the remaining pages are never listed (ScanView, CollectKeys and CountKeys under-report, ClearView leaves keys behind)", wit)
+	}
+	// inside a page every entry is reported or queued
+	cbs := eng.Calls(f, `^dyn:cb$`)
+	var handled []ssa.Instruction
+	handled = append(handled, eng.AsInstrs(cbs)...)
+	for _, ap := range eng.Calls(f, `^append$`) {
+		if strings.HasPrefix(eng.Expr(ap.Common().Args[0]), "φfrontier") {
+			handled = append(handled, ap)
+		}
+	}
+	site = "every listed entry is reported to the callback or queued on the frontier"
+	if c.Floor(f, "loop over the entries of a page", len(rangeBody), 1) && c.Floor(f, "callback / frontier push", len(handled), 2) {
+		if h := eng.Reach(eng.Query{Fn: f, StartEdges: rangeBody, Barriers: handled, Target: eng.IsTarget(append(append([]ssa.Instruction{}, rangeIfs...), stops...))}); h != nil {
+			c.Violation(f, site, h.Instr.Pos(), "an entry of a page can be passed over without being reported or queued", h.Witness)
+		} else {
+			c.OK(f, site, rangeIfs[0].Pos(), "from the loop body the next entry (or the end of paging) is reached only past the callback or the frontier push")
+		}
+	}
 }
